@@ -2,34 +2,36 @@ package main
 
 import (
 	"fmt"
-	"runtime/debug"
 	"testing"
-	"time"
 )
 
-func TestDebugMarshal(t *testing.T) {
-	w, err := LoadWorld()
+func TestDebugSetLaw(t *testing.T) {
+	w, _ := LoadWorld()
+	cs, err := LoadContracts()
 	if err != nil {
 		t.Fatal(err)
 	}
-	for _, tn := range []string{"Object", "Activity", "Actor", "Place", "Link", "OrderedCollectionPage", "Question"} {
-		ex := w.NewExec()
-		st := newState()
-		sv := ex.symValue(w.Type(tn), varNamer("x"), false)
-		t0 := time.Now()
-		func() {
-			defer func() {
-				if r := recover(); r != nil {
-					fmt.Println("PANIC", r); debug.PrintStack()
-				}
-			}()
-			res := ex.Call(st, w.Method(tn, "MarshalJSON"), []Value{sv}, nil)
-			tv := res.(*TupleVal)
-			fmt.Printf("%s: bytes term size? %d err=%v\n", tn, len(tv.V[0].(*Term).String()), tv.V[1])
-		}()
-		fmt.Println(tn, "time", time.Since(t0), "feas", ex.feasQueries, "terms", termSeq, "panics", len(ex.panics), "bounded", ex.bounded)
-		for n := range ex.notes {
-			fmt.Println("   note:", n)
+	ex := w.NewExec()
+	ex.UseLoops(cs, "(NaturalLanguageValues).Get", "(*NaturalLanguageValues).Set")
+	st := newState()
+	nlvT := w.Type("NaturalLanguageValues")
+	cell := ex.newObj("n", OCell, nlvT)
+	cell.owner = 0
+	n0 := ex.symValue(nlvT, varNamer("n"), false)
+	cell.init = func() Value { return n0 }
+	np := &PtrVal{Alts: []PtrAlt{{C: TTrue, O: cell}}}
+	ref, v := Var("ref", SStr), Var("v", SBytes)
+	set := w.lookupFn("(*NaturalLanguageValues).Set")
+	ex.Call(st, set, []Value{np, ref, v}, nil)
+	fmt.Println("PC:", st.pc)
+	n1 := ex.heapGet(st, cell).(*SliceVal)
+	for _, al := range n1.Alts {
+		fmt.Println("alt", al.C, al.O, al.Off, al.Len)
+		if al.O != nil {
+			fmt.Printf("   content %v\n", ex.heapGet(st, al.O))
 		}
+	}
+	for _, so := range ex.sideObls {
+		fmt.Println("side", so.Name)
 	}
 }
